@@ -156,7 +156,7 @@ pub fn make_search(name: &str, problem: &Arc<Problem>, env: &Arc<Environment>, p
 // ------------------------------------------------------------------------------------------------
 // digests and invariants over an InsertionContext (harness code; runs under sys::monitor)
 
-fn job_key(job: &Job) -> String {
+pub fn job_key(job: &Job) -> String {
     job.dimens().get_job_id().cloned().unwrap_or_else(|| {
         let vehicle = vrp_core::models::problem::VehicleIdDimension::get_vehicle_id(job.dimens()).cloned().unwrap_or_default();
         format!("<{}@{:p}>", vehicle, match job {
@@ -760,4 +760,31 @@ impl Scenario for W2Scenario {
             components_stub: vec!["rayon (plan-driven executor, H1)", "clock", "std hash keys", "heap addresses", "worker RNG streams (H2)"],
         }
     }
+}
+
+/// Triage aid (H3): an observer which reports every applied insertion after which the solution document breaks a
+/// hard rule that it did not break before, together with the operator call stack.
+pub fn tracing_observer(model: PModel) -> vrp_core::verif::InsertionObserver {
+    let seen: std::rc::Rc<std::cell::RefCell<BTreeSet<String>>> = Default::default();
+    let prev: std::rc::Rc<std::cell::RefCell<String>> = Default::default();
+    let count = std::rc::Rc::new(std::cell::Cell::new(0u64));
+    std::rc::Rc::new(move |ctx: &InsertionContext| {
+        sys::monitor(|| {
+            count.set(count.get() + 1);
+            let issues: Vec<_> = doc_issues(&model, ctx).into_iter().filter(|(p, r, m)| p == "C01" && !(r == "capacity" && m.contains("-"))).collect();
+            let mut seen = seen.borrow_mut();
+            let fresh: Vec<_> = issues.iter().filter(|(_, r, m)| !seen.contains(&format!("{r} {m}"))).collect();
+            if !fresh.is_empty() {
+                let bt = format!("{}", std::backtrace::Backtrace::force_capture());
+                let stack: Vec<&str> = bt.lines().filter(|l| l.contains("vrp_core::solver::search") || l.contains("probing") || l.contains("rosomaxa::hyper")).collect();
+                let tours: Vec<String> = ctx.solution.routes.iter().map(|rc| rc.route().tour.all_activities().filter_map(|a| a.retrieve_job().map(|j| job_key(&j))).collect::<Vec<_>>().join(" ")).collect();
+                crate::say!("BAD-INSERTION #{} {} {}\n  previous insertion left=[{}]\n  tours=[{}] required={:?} ignored={:?}\n{}", count.get(), fresh[0].1, fresh[0].2, prev.borrow(), tours.join(" | "),
+                    ctx.solution.required.iter().map(job_key).collect::<Vec<_>>(), ctx.solution.ignored.iter().map(job_key).collect::<Vec<_>>(), stack.join("\n"));
+            }
+            *prev.borrow_mut() = ctx.solution.routes.iter().map(|rc| rc.route().tour.all_activities().filter_map(|a| a.retrieve_job().map(|j| job_key(&j))).collect::<Vec<_>>().join(" ")).collect::<Vec<_>>().join(" | ");
+            for (_, r, m) in &issues {
+                seen.insert(format!("{r} {m}"));
+            }
+        })
+    })
 }
